@@ -411,7 +411,10 @@ pub fn run(seed: u64, count: usize, outdir: &str, jit: bool) -> std::io::Result<
                 orig.len() == simp.len() && orig.iter().zip(simp).enumerate().all(|(k, (a, b))| fmt_bits(a) == fmt_bits(b) || (hidden_at.get(k).copied().unwrap_or(false) && a.iter().zip(b).all(|(x, y)| canon_bits(*x) == canon_bits(*y) || x.is_nan()))) };
             for (li, l) in levels.iter().enumerate().skip(1) {
                 if !l.ok || !base.ok { continue; }
-                let same = base.outs.iter().zip(&l.outs).all(|(a, b)| fmt_bits(a) == fmt_bits(b));
+                // (bit for bit, except that two zeros count as equal: a min / max of zeros of opposite sign returns either, and the
+                //  simplified function returns the operand the trace chose — the freedom C02 states for min / max of equal zeros)
+                let zb = |v: &Vec<f32>| fmt_bits(&v.iter().map(|x| if *x == 0.0 { 0.0 } else { *x }).collect::<Vec<f32>>());
+                let same = base.outs.iter().zip(&l.outs).all(|(a, b)| zb(a) == zb(b));
                 if !same {
                     fails += 1;
                     let kind = if excused(&base.outs, &l.outs) { "nan-hidden-by-interval" } else { "value-changed" };
